@@ -1,21 +1,59 @@
 import CelmaVerif.Lemmas.Pairing
 import CelmaVerif.Lemmas.RulesSound
+import CelmaVerif.Lemmas.ParseFaithful
+import CelmaVerif.Lemmas.ParseRefuse
+import CelmaVerif.Lemmas.ParseSpells
+import CelmaVerif.Lemmas.RulesExample
 /-
-  C02 — no command line that breaks a declared rule is silently accepted: composition of the
-  pairing layer (an accepted argv is the abstract evaluation of its use log) with the rules layer
-  (an accepted abstract evaluation obeys every declared rule).  The per-rule statements at the
-  abstract level are in Props/C02.lean.
+  C02 — no command line that breaks a declared rule is silently accepted, at the level of argument
+  vectors.  Three layers are composed:
+
+  * parse faithfulness (Lemmas/ParseCursor.lean, ParseFaithful.lean): an accepted argument vector has
+    a derivation in the declarative word grammar `SpellsPlus` (Lemmas/ParseGrammar.lean — defined over
+    the words only, without the cursor model) of exactly the uses the evaluation logged;
+  * the grammar itself (Lemmas/ParseRefuse.lean): every key in a derivation resolves, every key whose
+    argument requires a value is followed by a value element;
+  * the rules layer (Lemmas/RulesSound.lean, per-rule statements in Props/C02.lean): accepted uses
+    obey every declared rule.
 -/
 namespace CelmaVerif.Props.C02b
 open CelmaVerif CelmaVerif.ProgArgs CelmaVerif.Keys
 
-/-- **Soundness of acceptance.**  For every well-formed configuration of the modelled fragment and
-    EVERY argument vector (any words, any forms — not only the ones in `Spells`): if evaluating the
-    command line returns normally, then the uses the handler made of its arguments (`hf.uses`: which
-    argument got which value, by key or as a free value, in order) obey every declared rule —
-    mandatory arguments present, every value converted and checked, cardinalities respected, no key
-    occurrence after an excluding argument, every requirement met by a later key occurrence, every
-    all-of / any-of / one-of constraint met.  Every other command line ends with an exception. -/
+/-- **Parse faithfulness.**  If evaluating the argument vector `prog :: ws` returns normally, the words
+    `ws` spell — in the declarative grammar `SpellsPlus`, which is defined over the words alone — exactly
+    the uses the evaluation logged (`hf.uses`: which argument got which value, by key or as a free
+    value, in order).  `SpellsPlus` contains every form of `Spells` (`C02_grammar_extends_spells`) and
+    the forms `Spells` leaves out: the separator `--`, `!` (accepted only when no use follows),
+    values of the positional argument, `--flag=value` read as flag + value element, a dash inside a
+    group of short keys (`-a-` = `-a --`, `-a-name` = `-a --name`).  Nothing reaches the log that the
+    words do not spell: a handler that skipped a word with an unknown key, or invented a value for a key
+    that needs one, would violate this theorem. -/
+theorem C02_parse_faithful (cfg : Cfg) (inits : List DVal) (prog : Word) (ws : List Word) (hf : HState)
+    (he : evalArguments cfg (cfg.initState inits) {} (prog :: ws) = .ok hf) : SpellsPlus cfg hf.uses ws := by
+  obtain ⟨us, sp, hu⟩ := parse_faithful cfg (cfg.initState inits) hf prog ws rfl rfl he
+  have : hf.uses = us := by rw [hu]; rfl
+  rw [this]; exact sp
+
+/-- **Soundness of acceptance, stated over the words.**  For every well-formed configuration of the
+    modelled fragment and EVERY argument vector: if the evaluation returns normally then there is an
+    abstract command line `us` that the words spell (`SpellsPlus`) and that obeys every declared rule
+    (`Obeys`: mandatory arguments present, every value converted and checked, cardinalities respected,
+    no key occurrence after an excluding argument, every requirement met by a later key occurrence,
+    every all-of / any-of / one-of / differ / disjoint constraint met) — and it is the one the handler
+    acted on.  Every other command line ends with an exception (`C04_eval_safe`: never anything else). -/
+theorem C02_sound_words (cfg : Cfg) (wf : cfg.WellFormed) (inits : List DVal) (hin : cfg.args.length ≤ inits.length)
+    (prog : Word) (ws : List Word) (hf : HState)
+    (he : evalArguments cfg (cfg.initState inits) {} (prog :: ws) = .ok hf) :
+    ∃ us, SpellsPlus cfg us ws ∧ Obeys cfg inits us ∧ hf.uses = us := by
+  obtain ⟨us, hu, g, hg, _⟩ := evalArguments_replays cfg (cfg.initState inits) hf (prog :: ws) rfl he
+  have hus : hf.uses = us := by rw [hu]; rfl
+  exact ⟨us, hus ▸ C02_parse_faithful cfg inits prog ws hf he, rules_sound wf hin hg, hus⟩
+
+/-- **Soundness of acceptance for the use log** (the rules half of `C02_sound_words`, kept under its
+    old name): if evaluating ANY argument vector returns normally, the uses the evaluation LOGGED
+    (`hf.uses`, a ghost field of the model written by `assignValue`) obey every declared rule.  On its
+    own this says nothing about the relation between the log and the words of `argv`; that relation is
+    `C02_parse_faithful`. -/
 theorem C02_sound (cfg : Cfg) (wf : cfg.WellFormed) (inits : List DVal) (hin : cfg.args.length ≤ inits.length)
     (argv : List Word) (hf : HState)
     (he : evalArguments cfg (cfg.initState inits) {} argv = .ok hf) : Obeys cfg inits hf.uses := by
@@ -24,12 +62,146 @@ theorem C02_sound (cfg : Cfg) (wf : cfg.WellFormed) (inits : List DVal) (hin : c
   rw [this]
   exact rules_sound wf hin hg
 
-/-- unknown keys and missing values are refused by the pairing layer itself: an element nobody
-    consumes ends the evaluation with std::invalid_argument -/
+/-- **Every key is known (short keys).**  A word `-c…` anywhere on the command line — behind words none
+    of which both starts and ends with a dash (such a word can be the separator `--`, behind which
+    everything is a value) — whose first key character `c` does not resolve to an argument (`findArg`
+    answers "none", or "ambiguous") makes the evaluation end with an exception: it never returns
+    normally, whatever else is on the line. -/
+theorem C02_unknown_short_key_refused (cfg : Cfg) (inits : List DVal) (prog : Word) (pre post : List Word)
+    (c : Char) (t : Word) (hpre : ∀ u ∈ pre, NoSep u) (hc : c ≠ '-')
+    (hunk : ∀ i d, findArg cfg.abbr cfg.table (Key.ofChar c) ≠ .ok (some (i, d))) (hf : HState) :
+    evalArguments cfg (cfg.initState inits) {} (prog :: (pre ++ ('-' :: c :: t) :: post)) ≠ .ok hf := by
+  intro he
+  exact SpellsPlus_unknown_short cfg pre post c t hf.uses hpre hc hunk (C02_parse_faithful cfg inits prog _ hf he)
+
+/-- … in particular when no defined argument has the short key `c` (declarative reason for "does not
+    resolve", abbreviations on or off) -/
+theorem C02_undefined_short_key_refused (cfg : Cfg) (inits : List DVal) (prog : Word) (pre post : List Word)
+    (c : Char) (t : Word) (hpre : ∀ u ∈ pre, NoSep u) (hc : c ≠ '-') (hc0 : c ≠ '\x00')
+    (hno : ∀ d ∈ cfg.args, d.key.short ≠ some c) (hf : HState) :
+    evalArguments cfg (cfg.initState inits) {} (prog :: (pre ++ ('-' :: c :: t) :: post)) ≠ .ok hf := by
+  apply C02_unknown_short_key_refused cfg inits prog pre post c t hpre hc
+  intro i d h
+  rw [findArg_short_unknown cfg c hc0 hno] at h
+  cases h
+
+/-- **Every key is known (long keys).**  A word `--name` or `--name=value` (same positions as above)
+    whose name is not a key specification, or is one that does not resolve to an argument (unknown, or
+    an ambiguous abbreviation, or abbreviations are off), makes the evaluation end with an exception. -/
+theorem C02_unknown_long_key_refused (cfg : Cfg) (inits : List DVal) (prog : Word) (pre post : List Word)
+    (b : Char) (r : Word) (hpre : ∀ u ∈ pre, NoSep u)
+    (hunk : ∀ k i d, Key.parse ((b :: r).takeWhile (· != '=')) = .ok k → findArg cfg.abbr cfg.table k ≠ .ok (some (i, d)))
+    (hf : HState) :
+    evalArguments cfg (cfg.initState inits) {} (prog :: (pre ++ ('-' :: '-' :: b :: r) :: post)) ≠ .ok hf := by
+  intro he
+  exact SpellsPlus_unknown_long cfg pre post b r hf.uses hpre hunk (C02_parse_faithful cfg inits prog _ hf he)
+
+/-- **Every argument that needs a value has one (short key).**  A word `-c` whose argument requires a
+    value and that is the last word, or is followed by a word that starts with a dash and is not the
+    separator `--`, makes the evaluation end with an exception (never a normal return with an invented
+    or empty value). -/
+theorem C02_missing_value_refused_short (cfg : Cfg) (inits : List DVal) (prog : Word) (pre post : List Word)
+    (c : Char) (i : Nat) (d : ArgDef) (hpre : ∀ u ∈ pre, NoSep u) (hc : c ≠ '-')
+    (hr : findArg cfg.abbr cfg.table (Key.ofChar c) = .ok (some (i, d))) (hm : d.vmode = .required)
+    (hpost : NoValueWord post) (hf : HState) :
+    evalArguments cfg (cfg.initState inits) {} (prog :: (pre ++ ['-', c] :: post)) ≠ .ok hf := by
+  intro he
+  exact SpellsPlus_missing_value_short cfg pre post c i d hf.uses hpre hc hr hm hpost
+    (C02_parse_faithful cfg inits prog _ hf he)
+
+/-- **Every argument that needs a value has one (long key).**  The same for a word `--name` (without
+    `=`), exact or abbreviated. -/
+theorem C02_missing_value_refused_long (cfg : Cfg) (inits : List DVal) (prog : Word) (pre post : List Word)
+    (b : Char) (r : Word) (k : Key) (i : Nat) (d : ArgDef) (hpre : ∀ u ∈ pre, NoSep u) (hne : '=' ∉ b :: r)
+    (hk : Key.parse (b :: r) = .ok k) (hr : findArg cfg.abbr cfg.table k = .ok (some (i, d)))
+    (hm : d.vmode = .required) (hpost : NoValueWord post) (hf : HState) :
+    evalArguments cfg (cfg.initState inits) {} (prog :: (pre ++ ('-' :: '-' :: b :: r) :: post)) ≠ .ok hf := by
+  intro he
+  exact SpellsPlus_missing_value_long cfg pre post b r k i d hf.uses hpre hne hk hr hm hpost
+    (C02_parse_faithful cfg inits prog _ hf he)
+
+/-- the grammar of `C02_parse_faithful` contains the grammar `Spells` of C01/C03 -/
+theorem C02_grammar_extends_spells (cfg : Cfg) (us : List Use) (ws : List Word) (hs : Spells cfg none us ws) :
+    SpellsPlus cfg us ws :=
+  spells_sub_spellsPlus hs
+
+/-- Loop-level lemma (definitional: one unfolding of `iterateLoop`; the statements about unknown keys
+    on a command line are `C02_unknown_short_key_refused` / `C02_unknown_long_key_refused`): an element
+    that `evalSingleArgument` classifies as unknown ends the loop with std::invalid_argument. -/
 theorem C02_unknown_element_refused (cfg : Cfg) (fuel : Nat) (h h' : HState) (ai ai' : It)
     (hne : ai.atEnd = false) (he : evalSingleArgument cfg h ai = .ok (h', ai', .unknown)) :
     iterateLoop cfg (fuel + 1) h ai = .throw .invalid_argument := by
   unfold iterateLoop
   simp [hne, he]
+
+/-! ### non-vacuity (`RulesExample.cfg`: `-v,--verbose` flag; `-n,--num` int, value required;
+    `-o,--out`; `-q,--quiet`; `-l,--list`) -/
+
+section Examples
+open CelmaVerif.ProgArgs.RulesExample
+
+/-- the argument `-n,--num` of `RulesExample.cfg` (index 1) -/
+def argN : ArgDef := RulesExample.cfg.args.getD 1 default
+
+/-- an accepted line with the separator: `-q -n -- 5` -/
+example : (evalArguments RulesExample.cfg (RulesExample.cfg.initState RulesExample.inits) {}
+    ["p".toList, "-q".toList, "-n".toList, "--".toList, "5".toList]).isOk = true := by decide +kernel
+
+/-- … and `C02_sound_words` applies to it: it spells uses that obey the rules -/
+example : ∃ us, SpellsPlus RulesExample.cfg us ["-q".toList, "-n".toList, "--".toList, "5".toList] ∧
+    Obeys RulesExample.cfg RulesExample.inits us := by
+  cases e : evalArguments RulesExample.cfg (RulesExample.cfg.initState RulesExample.inits) {}
+      ["p".toList, "-q".toList, "-n".toList, "--".toList, "5".toList] with
+  | ok hf =>
+    obtain ⟨us, h1, h2, _⟩ := C02_sound_words _ cfg_wf _ (by decide) _ _ hf e
+    exact ⟨us, h1, h2⟩
+  | throw x =>
+    exact absurd (show (evalArguments RulesExample.cfg (RulesExample.cfg.initState RulesExample.inits) {}
+      ["p".toList, "-q".toList, "-n".toList, "--".toList, "5".toList]).isOk = true by decide +kernel) (by rw [e]; simp [Res.isOk])
+  | oob x =>
+    exact absurd (show (evalArguments RulesExample.cfg (RulesExample.cfg.initState RulesExample.inits) {}
+      ["p".toList, "-q".toList, "-n".toList, "--".toList, "5".toList]).isOk = true by decide +kernel) (by rw [e]; simp [Res.isOk])
+
+/-- `-q -x`: no argument has the short key `x` — refused by `C02_undefined_short_key_refused`
+    (`pre = ["-q"]`, all hypotheses by `decide`) -/
+example (hf : HState) : evalArguments RulesExample.cfg (RulesExample.cfg.initState RulesExample.inits) {}
+    ("p".toList :: (["-q".toList] ++ ('-' :: 'x' :: []) :: [])) ≠ .ok hf :=
+  C02_undefined_short_key_refused RulesExample.cfg RulesExample.inits "p".toList ["-q".toList] [] 'x' []
+    (by decide) (by decide) (by decide) (by decide) hf
+
+/-- `-q --nosuch`: refused by `C02_unknown_long_key_refused` -/
+example (hf : HState) : evalArguments RulesExample.cfg (RulesExample.cfg.initState RulesExample.inits) {}
+    ("p".toList :: (["-q".toList] ++ ('-' :: '-' :: 'n' :: "osuch".toList) :: [])) ≠ .ok hf :=
+  C02_unknown_long_key_refused RulesExample.cfg RulesExample.inits "p".toList ["-q".toList] [] 'n' "osuch".toList
+    (by decide) (by
+      intro k i d hk
+      have h2 : Key.parse (('n' :: "osuch".toList).takeWhile (· != '=')) = .ok ⟨none, "nosuch".toList⟩ := by rfl
+      rw [h2] at hk
+      cases hk
+      intro h
+      have h3 : findArg RulesExample.cfg.abbr RulesExample.cfg.table ⟨none, "nosuch".toList⟩ = .ok none := by rfl
+      rw [h3] at h
+      cases h) hf
+
+/-- `-q -n` (value missing at the end) and `-q -n -v` (a key follows): refused by
+    `C02_missing_value_refused_short` -/
+example (hf : HState) :
+    evalArguments RulesExample.cfg (RulesExample.cfg.initState RulesExample.inits) {}
+      ("p".toList :: (["-q".toList] ++ ['-', 'n'] :: [])) ≠ .ok hf ∧
+    evalArguments RulesExample.cfg (RulesExample.cfg.initState RulesExample.inits) {}
+      ("p".toList :: (["-q".toList] ++ ['-', 'n'] :: ["-v".toList])) ≠ .ok hf :=
+  ⟨C02_missing_value_refused_short RulesExample.cfg RulesExample.inits "p".toList ["-q".toList] [] 'n' 1 argN
+      (by decide) (by decide) (by rfl) (by rfl) (Or.inl rfl) hf,
+   C02_missing_value_refused_short RulesExample.cfg RulesExample.inits "p".toList ["-q".toList] ["-v".toList] 'n' 1 argN
+      (by decide) (by decide) (by rfl) (by rfl) (Or.inr ⟨['v'], [], rfl, by decide⟩) hf⟩
+
+/-- `-q --num` (abbreviations: `--nu`) without a value: refused by `C02_missing_value_refused_long` -/
+example (hf : HState) :
+    evalArguments RulesExample.cfg (RulesExample.cfg.initState RulesExample.inits) {}
+      ("p".toList :: (["-q".toList] ++ ('-' :: '-' :: 'n' :: ['u']) :: [])) ≠ .ok hf :=
+  C02_missing_value_refused_long RulesExample.cfg RulesExample.inits "p".toList ["-q".toList] [] 'n' ['u']
+    ⟨none, "nu".toList⟩ 1 argN (by decide) (by decide) (by rfl) (by rfl) (by rfl) (Or.inl rfl) hf
+
+end Examples
 
 end CelmaVerif.Props.C02b
